@@ -155,7 +155,8 @@ Section Worlds.
        w_apply := fun _ _ => raiseM (mk_exc Unmodelled []);       (* default factories: [with_default] of Struct/Defaults.v *)
        w_callable := fun _ => false;
        w_repr_str := repr_str;
-       w_json_dumps := dumps |}.
+       w_json_dumps := dumps;
+       w_new := fun _ _ _ => raiseM (mk_exc Unmodelled []) |}.
 
   (* the outcome of the constructor as the model states it: the instance, or the class of the exception *)
   Definition view (c : classdef) (r : istate * (unit + pyexc)) : res pyval :=
@@ -189,7 +190,8 @@ Section Worlds.
        w_apply := fun _ _ => raiseM (mk_exc Unmodelled []);
        w_callable := fun _ => false;
        w_repr_str := repr_str;
-       w_json_dumps := dumps |}.
+       w_json_dumps := dumps;
+       w_new := fun _ _ _ => raiseM (mk_exc Unmodelled []) |}.
 End Worlds.
 
 (* a class without fields, named cls: the heap of the message-level statements *)
